@@ -192,21 +192,35 @@ JLS_RANGE = {"byte": (-128, 127), "short": (-32768, 32767), "char": (0, 65535)}
 def jls_constant_narrowing(export, site, old, new):
     """JLS 5.2: a constant expression of type byte/short/char/int may be assigned to a variable of
     type byte/short/char (or Byte/Short/Character) when its value is representable there.  Only
-    the shape the generator produces is recognised: the initialiser of the variable is an integer
-    literal."""
+    the shapes the generator produces are recognised: the initialiser of the variable is an integer
+    literal or names a constant variable (see jls_constant_value)."""
     if site[1][0] != "varType" or old[0] not in ("prim", "boxed") or old[1] not in ("byte", "short", "char", "int"):
         return False
     if new[0] not in ("prim", "boxed") or new[1] not in JLS_RANGE:
         return False
-    e = node_at(export, site[0]).get("expr")
-    if not e or e["n"] != "int":
-        return False
-    try:
-        v = int(e["lit"])
-    except ValueError:
+    v = jls_constant_value(export, node_at(export, site[0]).get("expr"))
+    if v is None:
         return False
     lo, hi = JLS_RANGE[new[1]]
     return lo <= v <= hi
+
+
+def jls_constant_value(export, e, depth=0):
+    """value of a JLS 15.29 constant expression of the two shapes the generator produces: an integer
+    literal, or the simple name of a final top-level variable (a static final field of Main: a
+    constant variable, JLS 4.12.4) whose initialiser is again such an expression"""
+    if not e or depth > 20:
+        return None
+    if e["n"] == "int":
+        try:
+            return int(e["lit"])
+        except ValueError:
+            return None
+    if e["n"] == "variable":
+        for d in export.get("decls", []):
+            if isinstance(d, dict) and d.get("n") == "var" and d.get("name") == e.get("name"):
+                return jls_constant_value(export, d.get("expr"), depth + 1) if d.get("isFinal") else None
+    return None
 
 
 def accepted_shape(lang, site, d, text_changed, export=None):
